@@ -4,7 +4,7 @@ from __future__ import annotations
 import ast
 
 from ..cfg import CFG
-from ..engine import AnalysisError, PropertySpec, norm
+from ..engine import AnalysisError, MechanismMissing, PropertySpec, norm
 from ..pyutil import call_name, calls, dotted, is_name, walk_local
 
 AST = "src/pymoca/ast.py"
@@ -33,7 +33,7 @@ def _deepcopy_methods(ctx, R):
                     ctx.functions_analysed.add("%s:%s.__deepcopy__" % (AST, st.name))
                     out.append((st.name, m, m.args.args[0].arg, m.args.args[1].arg))
     if len(out) < 2:
-        raise AnalysisError(R, "expected >=2 __deepcopy__ hooks in ast.py, found %d" % len(out))
+        raise MechanismMissing(R, "expected >=2 __deepcopy__ hooks in ast.py, found %d" % len(out))
     return out
 
 
@@ -66,7 +66,7 @@ def r06_1(ctx, rep):
                 n += 1
                 rep.ob(R, site, "call:" + norm(node), _is_id_key(node.args[0]), "memo must be accessed with id(<object>) keys")
     if n < 2:
-        raise AnalysisError(R, "fewer than 2 memo accesses found")
+        raise MechanismMissing(R, "fewer than 2 memo accesses found")
 
 
 @SPEC.rule(
@@ -106,7 +106,7 @@ def r06_2(ctx, rep):
                     rep.ob(R, site, "write:" + norm(st), ok,
                            "`%s` must be dominated by the test `id(%s) not in %s`" % (norm(st), obj, memo))
     if n < 1:
-        raise AnalysisError(R, "no keep-by-reference memo write found (Class.__deepcopy__ parent rule)")
+        raise MechanismMissing(R, "no keep-by-reference memo write found (Class.__deepcopy__ parent rule)")
 
 
 def _conjunct_of(test, c) -> bool:
@@ -193,7 +193,7 @@ def r06_3(ctx, rep):
                % (("bound to the source: " + "; ".join(bad_bind)) if bad_bind else "shadow not removed from the copy"))
         rep.ob(R, site, "hook on the source", restored_self, "the temporary `self.__deepcopy__ = None` shadow must be undone on the source")
     if n < 2:
-        raise AnalysisError(R, "expected 2 self-shadowing __deepcopy__ hooks (Class, ClassModificationArgument), found %d" % n)
+        raise MechanismMissing(R, "expected 2 self-shadowing __deepcopy__ hooks (Class, ClassModificationArgument), found %d" % n)
 
 
 @SPEC.rule(
